@@ -56,10 +56,11 @@ def plan(tier):
     return dict(n_cases=n, shards=16, min_nontrivial=n // 8,
                 min_hits={'static_NL_runs': n // 2, 'reported_states_judged': n // 2},
                 min_tags={'ev:D': 20, 'ev:S': 20, 'ev:M': 20, 'ev:X': 20, 'ev:BB': 20, 'hist:success_after_3_cutbacks': 20,
-                          'hist:failure_at_full_load': 20, 'family:linear': 20},
+                          'hist:failure_at_full_load': 20, 'family:linear': 20, 'fint(inc)': n // 8},
                 watchdog_s=1800 if tier == 'quick' else 10000,
                 rule='synthetic n-dof problems (stiffening/softening cubic springs, coupled quartic potentials, snap-through truss, '
-                     'linear, with null rows) with PURE fext/fint and a scripted tangent (exact / scaled / sign-flipped above a load '
+                     'linear, with null rows; 30% with an internal force that itself depends on the load factor, as under displacement control) '
+                     'with PURE fext/fint and a scripted tangent (exact / scaled / sign-flipped above a load '
                      'level / hostile for large steps / stale / randomly hostile), settings swept (initial/min/max increment, absTOL '
                      'over 8 decades, maxNumIter 2..40, too_slow_TOL, line search, modified NR, compute_every_n, kT_initial_state); '
                      'non-trivial = the run reported at least one state or ended by the minimum-increment rule; distinct = outcome '
